@@ -34,7 +34,7 @@ def _find_lines(path):
 def _run_one(path, func, line, timeout, env_extra, verbose=True):
     t0 = time.time()
     env = dict(os.environ)
-    env["PYTHONPATH"] = ROOT
+    env["PYTHONPATH"] = (os.environ["VERIF_REPO"] + ":" if os.environ.get("VERIF_REPO") else "") + ROOT
     env["PYTHONDONTWRITEBYTECODE"] = "1"
     env["VERIF_CHX"] = "1"
     env.update(env_extra or {})
@@ -78,7 +78,7 @@ def replay_call(path, call_text):
     ) % (ROOT, path, call_text)
     env = dict(os.environ)
     env.pop("VERIF_CHX", None)
-    env["PYTHONPATH"] = ROOT
+    env["PYTHONPATH"] = (os.environ["VERIF_REPO"] + ":" if os.environ.get("VERIF_REPO") else "") + ROOT
     p = subprocess.run([PY, "-c", code], capture_output=True, text=True, env=env, timeout=600)
     txt = (p.stdout + p.stderr).strip()
     return ("REPRODUCED" in p.stdout and "NOT-REPRODUCED" not in p.stdout), txt[-800:], code
